@@ -32,10 +32,9 @@ def type_ref(t):
     """introspection TypeRef -> type string"""
     if t is None:
         return None
-    if t["kind"] == "NON_NULL":
-        return type_ref(t["ofType"]) + "!"
-    if t["kind"] == "LIST":
-        return "[" + type_ref(t["ofType"]) + "]"
+    if t["kind"] in ("NON_NULL", "LIST"):
+        inner = type_ref(t.get("ofType")) or "<missing ofType>"   # a wrapper the response does not unwrap: reported, not a crash
+        return inner + "!" if t["kind"] == "NON_NULL" else "[" + inner + "]"
     return t["name"]
 
 
